@@ -58,6 +58,9 @@ func (a *AddPartitionsToTxnResponse) decode(pd packetDecoder, version int16) (er
 			return err
 		}
 
+		if m < 0 {
+			return errInvalidArrayLength
+		}
 		a.Errors[topic] = make([]*PartitionError, m)
 
 		for j := 0; j < m; j++ {
